@@ -29,7 +29,8 @@ class C10(object):
     required_counters = ('length.judged', 'exo.judged', 'ic.judged', 'ic.zero_valued.judged', 'model.horizon_chosen_after_exogenous_paths', 'model.declared_through_sector_objects', 'time.judged.with_variable_T_next_to_default_t', 'lag.judged', 'time.judged', 'reject.judged',
                          'model.judged', 'solver_reused.cases', 'ic_on_default_time.judged',
                          'solver_horizon_overrides_line.cases', 'horizon_assigned_after_parse.cases',
-                         'exo_on_parameter.judged')
+                         'exo_on_parameter.judged',
+                         'flat_block_without_simultaneous_part.cases')
 
     def n_cases(self, tier):
         return 320 if tier == 'quick' else 30000
@@ -44,6 +45,19 @@ class C10(object):
         if m in (13, 14):
             kind = rng.choice(['short_list', 'bad_exo', 'bad_ic', 'int_scalar', 'short_tuple', 'bad_ic_zero_div'])
             return {'kind': 'reject', 'what': kind, 'maxtime': rng.randint(1, 12), 'reduction': rng.random() < 0.5}
+        if m == 5:
+            # a "flat" block: nothing simultaneous - every variable follows from exogenous and lagged values only
+            T_ = rng.choice([1, 2, 3, 8, 20])
+            vals = [float(rng.randint(1, 30)) for _ in range(T_ + 1 + rng.randint(0, 3))]
+            spec = {'simul': [], 'lags': [{'name': 'LAG_inc', 'src': 'inc'}],
+                    'exos': [{'name': 'inc', 'form': 'list', 'values': vals, 'text': repr(vals)}], 'consts': [],
+                    'aliases': [], 'decos': [{'name': 'cc', 'expr': '0.5*LAG_inc + 1.0'}, {'name': 'dd', 'expr': '2.0*LAG_inc + inc'}],
+                    'ics': {'LAG_inc': G.nice(rng, 1.0, 9.0), 'cc': G.nice(rng, 1.0, 9.0)}, 'time': None, 'maxtime': T_}
+            text = ('cc = 0.5*LAG_inc + 1.0\nLAG_inc = inc(k-1)\ndd = 2.0*LAG_inc + inc\n'
+                    'LAG_inc(0) = %r\ncc(0) = %r\nMaxTime = %d\nErr_Tolerance = 1e-9\nexogenous\ninc = %r'
+                    % (spec['ics']['LAG_inc'], spec['ics']['cc'], T_, vals))
+            return {'kind': 'solve', 'spec': spec, 'text': text, 'late_horizon': None, 'via': 'line',
+                    'reduction': rng.random() < 0.75, 'earlier': None, 'flat': True}
         maxtime = rng.choice([0, 1, 2, 3, 5, 8, 13, 30, 60]) if rng.random() < 0.6 else rng.randint(0, 60)
         spec = G.gen_affine(rng, maxtime=maxtime, rho=rng.choice([0.2, 0.5, 0.8]), tol=1e-9,
                             n_exo=rng.randint(0, 3), ics=False)
@@ -228,6 +242,8 @@ class C10(object):
                 return {'verdict': 'violated', 'shape': 'solve|late_horizon', 'counters': rec.counters,
                         'violations': rec.violations}
             T = len(ts['k']) - 1
+        if case.get('flat'):
+            rec.count('flat_block_without_simultaneous_part.cases')
         self.judge_series(rec, ts, spec, T, case)
         nontrivial = bool(spec['exos'] or spec['ics'])
         return {'verdict': 'violated' if rec.violations else 'held', 'nontrivial': nontrivial,
